@@ -120,6 +120,38 @@ def run(ctx):
         if not ok:
             res.find(key, fw.loc(), msg, manifest)
 
+    # every effect (output extend/push, entry push) of one iteration depends only on: the loop, the `?`s, and which arm of the
+    # Option returned by gate_sequence_from_instruction is taken - nothing else may skip it
+    def extra_conditions(fn, bb):
+        inside = fn.reachable_blocks(bb)
+        out_ = []
+
+        def is_next(a):
+            tt = fn.blocks[a]["t"]
+            de = fn_expr_operand(fn, tt["d"]) if tt["k"] == "switch" else ("x",)
+            return de[0] == "discr" and de[1][0] == "call" and de[1][1].endswith("::next")
+
+        for sb, tgt in fn.control_deps(bb, stop=lambda a: is_next(a) and a in inside):
+            tt = fn.blocks[sb]["t"]
+            if tt["k"] != "switch":
+                out_.append(tt["k"])
+                continue
+            de = fn_expr_operand(fn, tt["d"])
+            if de[0] == "discr":
+                inner = de[1]
+                if inner[0] == "call" and (inner[1].endswith("::next") or inner[1].endswith("Try>::branch")):
+                    continue
+                if any(c[1] == gsf.path for c in expr_calls(inner)):
+                    continue
+            out_.append((de[1] if de[0] == "call" else str(de[:2]))[-60:])
+        return out_
+
+    for label, fn, sites in (("with_map", fw, [("extend", extw[0][0]), ("push", pshw[0][0]), ("entry:Rewritten", kinds["Rewritten"][0]), ("entry:Unmodified", kinds["Unmodified"][0])]),
+                             ("without_map", fo, [("extend", exto[0][0]), ("push", psho[0][0])] if len(exto) == 1 and len(psho) == 1 else [])):
+        for what, bb in sites:
+            ex = extra_conditions(fn, bb)
+            check("K7|unconditional-effect|%s|%s" % (label, what), not ex, {"extra_conditions": ex}, "%s: the %s of an iteration is skipped under an additional condition (%s)" % (fn.name, what, ex),
+                  "a sequence invocation that expands to no gates gets no source-map entry, so the map no longer has one entry per source instruction")
     for kind in ("Rewritten", "Unmodified"):
         bb, e = kinds[kind]
         sl = e[3]["source_location"]
@@ -213,6 +245,20 @@ def run(ctx):
             res.site(key, True, {"without_map": a, "with_map": b, "verdict": "ok" if ok else "VIOLATION"})
             if not ok:
                 res.find(key, p2.loc(), "Program-level expansion entry points disagree or deviate on `%s`: %r vs %r" % (k, a, b), "the program returned with a source map differs from the one returned without (a field is dropped or taken from elsewhere)")
+        for p in (p1, p2):
+            key = "K3|program-sibling|returns-built-program|" + p.name
+            oks = [s_ for bb, s_ in aggregates(p) if s_["rv"]["a"]["path"] == "std::result::Result" and s_["rv"]["a"]["variant"] == "Ok"]
+            bad = []
+            for s_ in oks:
+                e = fn_expr_operand(p, s_["rv"]["ops"][0])
+                parts = e[1] if e[0] == "tuple" else [e]
+                prog = parts[0]
+                if not (prog[0] == "agg" and prog[1] == "quil_rs::program::Program") and not (prog[0] == "partial" or any(n[0] == "agg" and n[1] == "quil_rs::program::Program" for n in nodes(prog))):
+                    bad.append(str(prog[:3])[:80])
+            ok = bool(oks) and not bad
+            res.site(key, True, {"ok_returns": len(oks), "not_the_built_program": bad, "verdict": "ok" if ok else "VIOLATION"})
+            if not ok:
+                res.find(key, p.loc(), "%s has a success return that is not the program it built from the expander's output (%s)" % (p.name, bad), "with `outer` unselected and referencing the selected `inner`, one entry point expands `inner 1` and the other returns the program untouched")
         # expand / expand_with_source_map start their impl with a fresh stack on their argument
         for ef, impl in ((e1[0], fo), (e2[0], fw)):
             key = "K3|entry-calls-impl|" + ef.name
